@@ -840,7 +840,7 @@ def register_build(R):
         return nd.uid not in E.entry_uids and all(nd.items[c].uid not in E.entry_uids for c in NCOLS)
 
     def frame_extra(E, v, o):
-        # FINDING: Tree.from_data_frame hands only names.cols() to Tree(...): a frame read with extra_cols=[...] (Tree.from_swc(f,
+        # defect found here and FIXED in /repo: Tree.from_data_frame handed only names.cols() to Tree(...): a frame read with extra_cols=[...] (Tree.from_swc(f,
         # extra_cols=..), Tree.from_eswc) loses the requested columns without any message; to_eswc() of such a tree raises KeyError
         t, df = v["result"], o["df"]
         nd = t.fields["ndata"].items
@@ -867,7 +867,7 @@ def register_build(R):
             ("n-nodes-is-the-number-of-rows-and-every-SWC-column-holds-the-frame's-values-in-row-order", frame_cols),
             ("int-columns-stored-as-int32-float-columns-as-float32", frame_dtypes),
             ("the-tree-owns-fresh-arrays(64-bit-frame-columns-are-converted-copies)", frame_fresh),
-            ("extra-columns-of-the-frame-are-kept", frame_extra),  # FINDING (fails for the variant with an extra column)
+            ("extra-columns-of-the-frame-are-kept", frame_extra),  # failed on the code before the fix (known_findings.jsonl)
             ("source-names-types-stored-comments-copied-into-an-own-list", frame_stored),
         ],
         notes="number of rows and all cell values symbolic; frame and its columns frozen (a write = failed frame obligation)",
